@@ -488,6 +488,11 @@ func specOracle(c bindCase, o bindObs, st *bindStats, add func(violation)) {
 			prop := propOfKind[kinds[i]]
 			add(violation{prop, "expansion-differs-from-the-property", qh,
 				fmt.Sprintf("segment %d (%s): expected %q at %q; full SQL %q", i, kinds[i], p, trunc(rest, 80), o.sql)})
+			if regs, _ := lexRegions(p); kinds[i] == "B" && len(regs) > 0 {
+				// pass-through text holding a literal or a comment did not arrive unchanged
+				add(violation{"C02", "literal-or-comment-text-changed", qh,
+					fmt.Sprintf("segment %d: expected %q at %q", i, p, trunc(rest, 80))})
+			}
 			return
 		}
 		rest = rest[len(p):]
